@@ -46,10 +46,11 @@ GC = ["gc_alloc", "gc_release"]
 # with the size and is far higher for sizes that are not powers of two, so the split is NOT complete in either tier and
 # every struct-array obligation is labelled bounded: B(struct elem_size in {...}).
 ESZ = {   # op class -> (quick sizes, additional thorough sizes)
-    "cheap": ([0, 1, 3, 8, 24, 40], [2, 4, 5, 6, 7, 12, 16, 32, 48, 56, 64]),
+    "cheap": ([0, 1, 8, 24], [2, 3, 4, 5, 6, 7, 12, 16, 32, 40, 48, 56, 64]),
     "set_struct": ([0, 1, 3, 8, 24], [2, 4, 5, 6, 7, 12, 16, 32, 40, 48, 56, 64]),
-    "push_struct": ([1, 8, 24], [2, 3, 4, 16, 32, 40]),
-    "remove_at": ([0, 1, 2, 8, 16], [4, 32, 64, 128]),   # powers of two only: (index+1)*esz = index*esz+esz is out of reach otherwise
+    "push_struct": ([8, 24], [1, 2, 3, 4, 16, 32, 40]),
+    "push_struct_first": ([8], [1, 2, 3, 4, 16, 24, 32, 40]),
+    "remove_at": ([0, 1, 8, 16], [2, 4, 32, 64, 128]),   # powers of two only: (index+1)*esz = index*esz+esz is out of reach otherwise
 }
 
 
@@ -146,13 +147,13 @@ def dyn_push_struct(prop, pfx):
     assert); (b) fresh struct array (elem_size 0) and (c) EMPTY array of any other kind (promotion): struct_size becomes
     the element size -> split over struct_size 1..255 plus the class > 255 (must not return)."""
     obs = []
-    kw = dict(replace=["memcpy"], weight=6)
+    kw = dict(replace=["memcpy"], weight=8)
     fn = "dyn_array_push_struct"
     for sfx, e, tier, st in esz_variants("push_struct"):
         obs.append(dyn_ob(prop, "%s.push_struct.struct.%s" % (pfx, sfx), 6, "h_push_struct", fn,
                           defines={"VERIF_ESZ": e, "VERIF_EXPECT_ABORT": 1}, tier=tier, strength=st, **kw))
     for who, k, base in (("fresh", 6, {"VERIF_ESZ": 0}), ("promote", 0, {})):
-        for sfx, e, tier, st in esz_variants("push_struct"):
+        for sfx, e, tier, st in esz_variants("push_struct_first"):
             d = dict(base, VERIF_SSZ=e)
             if who == "promote":      # a non-empty array of another kind must end the run
                 d["VERIF_EXPECT_ABORT"] = 1
@@ -195,7 +196,7 @@ def list_int(prop, pfx, only=None):
                         enforce=fn, replace=["memmove"] if mm else [], loops=True, gi_flags=GI, unwind="auto",
                         strength="X" if op.startswith("insert") else "U",
                         functions=[fn] + (["ensure_capacity"] if grows else []), must_have=must, min_checks=10, timeout=240,
-                        weight=4 if (grows or mm) else 1, witness={"replayer": "dyn"},
+                        weight=10 if mm else (4 if grows else 1), witness={"replayer": "dyn"},
                         # insert: not reached - the query does not get past CBMC's propositional reduction in 20 min
                         # (memmove contract havoc + a further symbolic write); kept in the thorough tier as undecided
                         tier="thorough" if op.startswith("insert") else "quick"))
